@@ -441,6 +441,14 @@ func (c *consumerGroup) removeConsumer(cons *consumer) {
 				heap.Remove(subscribers, i)
 			}
 		}
+		// Don't keep an empty subscriber heap around: it is not part of a
+		// snapshot, so a restored group would otherwise react differently to
+		// a later deletion of the stream (StreamDeleted bumps the epoch only
+		// if the stream has a subscriber entry).
+		if len(*subscribers) == 0 {
+			delete(c.subscribers, stream)
+			return
+		}
 		// Rebalance the stream if the consumer being removed had assignments
 		// for it.
 		if _, ok := cons.assignments[stream]; ok {
